@@ -128,10 +128,12 @@ type State struct {
 	ghost  map[string]*Term
 	qfacts []*QFact
 	dead   bool
+	paramOverride map[string]Value
+	branches      []*Term // branch decisions only (subset of pc), for the relational coverage VCs
 }
 
 func (s *State) clone() *State {
-	n := &State{prev: s.prev, galloc: s.galloc, dead: s.dead}
+	n := &State{prev: s.prev, galloc: s.galloc, dead: s.dead, paramOverride: s.paramOverride}
 	n.store = make(map[interface{}]Value, len(s.store))
 	for k, v := range s.store {
 		n.store[k] = v
@@ -146,6 +148,7 @@ func (s *State) clone() *State {
 	n.trace = append([]int{}, s.trace...)
 	n.defers = append([]ClosureV{}, s.defers...)
 	n.qfacts = append([]*QFact{}, s.qfacts...)
+	n.branches = append([]*Term{}, s.branches...)
 	n.ghost = make(map[string]*Term, len(s.ghost))
 	for k, v := range s.ghost {
 		n.ghost[k] = v
@@ -255,6 +258,7 @@ type Exec struct {
 	retSub     map[int64]bool
 	simVariant string
 	simLimit   int64
+	relMode    bool
 }
 
 // SpecHook lets a proof driver add hypotheses when the path reads input bytes or jumps.
@@ -512,6 +516,9 @@ func (ex *Exec) val(st *State, v ssa.Value) Value {
 	case *ssa.Function:
 		return &ClosureV{Fn: x}
 	case *ssa.Parameter:
+		if ov, ok := st.paramOverride[x.Name()]; ok {
+			return ov
+		}
 		if pv, ok := ex.params[x.Name()]; ok {
 			return pv
 		}
